@@ -12,8 +12,9 @@ PRIMS = ["int", "long", "float", "str", "bool"]
 
 
 class ObjGen(lg.Gen):
-    def __init__(self, rng, nclasses=None, with_dtors=True, name_pool=None):
+    def __init__(self, rng, nclasses=None, with_dtors=True, name_pool=None, die_together=False):
         super().__init__(rng, nfuncs=0)
+        self.die_together = die_together     # leave the objects to the end of main's scope (several destructors at one scope exit)
         self.nclasses = nclasses if nclasses is not None else rng.randint(2, 5)
         self.with_dtors = with_dtors
         self.classes = []          # dicts as rendered by langgen.class_src plus bookkeeping
@@ -360,8 +361,9 @@ class ObjGen(lg.Gen):
         if names and r.random() < 0.5:
             body.append(("destroy", ("v", names[0])))
             body.append(("echo", ("s", "destroyed")))
-        for n in names:
-            body.append(("set", n, ("null",)))
+        if not self.die_together:
+            for n in names:
+                body.append(("set", n, ("null",)))
         body.append(("echo", ("s", "end")))
         return helpers + [("main", "void", [], body)]
 
